@@ -2,7 +2,7 @@
    This file contains only the property theorems (closed by [exact] or, over the regenerated
    definitions of Gen_Send.v, by computation) and Print Assumptions. *)
 From Coq Require Import Strings.String.
-From Verif Require Import Bytes Response Send Response_Proofs Send_Proofs.
+From Verif Require Import Bytes Response Send Response_Proofs Send_Proofs ResponseRaw ResponseRaw_Proofs.
 From Gen Require Import Gen_Send.
 
 (* ---- failed flags ---- *)
@@ -29,6 +29,31 @@ Theorem C13_multi_failed_iff_any : forall rs,
   multi_failed rs = true <-> exists r, In r rs /\ r_failed r = true.
 Proof. exact multi_failed_iff_any. Qed.
 Print Assumptions C13_multi_failed_iff_any.
+
+(* ---- the output as the BYTES the channel returned (any bytes: well-formed UTF-8 or not) ----
+   record_raw = decode (UTF-8 where well-formed, ISO-8859-1 otherwise) then record_response.
+   The response is failed exactly when a marker occurs in the text the bytes are read as ... *)
+Theorem C13_failed_iff_marker_raw : forall input f raw,
+  r_failed (record_raw (new_response input f) raw) = true
+  <-> exists m, In m (markers_of f) /\ Infix m (decode_output raw).
+Proof. exact failed_iff_marker_raw. Qed.
+Print Assumptions C13_failed_iff_marker_raw.
+
+(* ... and for ASCII markers exactly when the marker's bytes occur in the raw output itself: a byte that is
+   not UTF-8 (latin-1 text, garbage, a truncated sequence) neither hides a marker nor makes one up
+   (witnesses: ResponseRaw_Proofs.raw_flag_witnesses) *)
+Theorem C13_failed_raw_ascii_markers : forall input f raw,
+  forallb is_ascii (markers_of f) = true ->
+  (r_failed (record_raw (new_response input f) raw) = true <-> exists m, In m (markers_of f) /\ Infix m raw).
+Proof. exact failed_raw_ascii_markers_iff. Qed.
+Print Assumptions C13_failed_raw_ascii_markers.
+
+(* the reading of the bytes: well-formed UTF-8 is taken as it is, and whatever the bytes the result is text *)
+Theorem C13_decode_output_text :
+  (forall raw, utf8_valid raw = true -> decode_output raw = raw) /\
+  (forall raw, all_bytes raw = true -> utf8_valid (decode_output raw) = true).
+Proof. exact (conj decode_output_utf8 decode_output_valid). Qed.
+Print Assumptions C13_decode_output_text.
 
 (* ---- delivery: for every device, every list (also the empty one with the guard of the current
    code), every marker set, eager or not: without a stop (no stop_on_failed, or no failing line
